@@ -210,11 +210,24 @@ func c08Run(r *kit.Run, idx int64, rng *rand.Rand) {
 		redundant = 1 + rng.IntN(3)
 		nleave = 1 + rng.IntN(2)
 	}
+	// subscription churn: goroutines that keep subscribing and unsubscribing
+	// fresh channels while the messages flow; the steady subscribers must not
+	// notice (the subscriber set changes between two looks of a dispatcher)
+	churners := 0
+	if rng.IntN(4) == 0 {
+		churners = 1 + rng.IntN(3)
+		if nmsg < 150 {
+			nmsg = 150 + rng.IntN(350)
+		}
+		if nstatic == 0 {
+			nstatic = 1 + rng.IntN(3)
+		}
+	}
 	strangers := make([]int64, redundant) // publication counts at which a stranger channel is unsubscribed
 	if nstatic+nlate == 0 {
 		nstatic = 1
 	}
-	desc := map[string]any{"config": cfg, "publishers": npub, "messages_per_publisher": nmsg, "static_subscribers": nstatic, "late_joiners": nlate, "early_leavers": nleave, "redundant_unsubscribes": redundant, "gomaxprocs": procs}
+	desc := map[string]any{"config": cfg, "publishers": npub, "messages_per_publisher": nmsg, "static_subscribers": nstatic, "late_joiners": nlate, "early_leavers": nleave, "redundant_unsubscribes": redundant, "subscription_churners": churners, "gomaxprocs": procs}
 	r.Eval()
 	r.Current(idx, fmt.Sprintf("C08 %+v", desc))
 	t0 := time.Now()
@@ -311,6 +324,26 @@ func c08Run(r *kit.Run, idx int64, rng *rand.Rand) {
 				}
 			}()
 		}
+		var churned atomic.Int64
+		for k := 0; k < churners; k++ {
+			cseed := rng.Uint64()
+			mwg.Add(1)
+			go func() {
+				defer mwg.Done()
+				lr := rand.New(rand.NewPCG(cseed, 11))
+				for k := 0; k < 400 && published.Load() < total; k++ {
+					s := addSub("leaver")
+					mmu.Lock()
+					subs = append(subs, s)
+					mmu.Unlock()
+					kit.Yields(lr.IntN(8))
+					s.unsubCall = kit.Stamp()
+					h.b.Unsubscribe(ctx, s.ch)
+					churned.Add(1)
+				}
+			}()
+		}
+		defer func() { r.Count("subscriptions_churned", churned.Load()) }()
 		for k := range strangers {
 			strangers[k] = rng.Int64N(total + 1)
 		}
